@@ -47,6 +47,8 @@ def check(run):
     from . import C10
     with R.as_rule('C18.samehread'):
         C10.limit(R)
+    from .common import lazy_pipeline
+    lazy_pipeline(R, 'C18.sameloop')
     level(R)
     pending(R)
     count(R)
